@@ -20,7 +20,8 @@ def step (s : St) (line : String) : St × String :=
   | ["conc", _, _] => (s, "-")       -- concurrent pair: checked by the harness monitor only
   | ["many", _, _] => (s, "-")       -- n concurrent calls of one kind: harness monitor only
   | ["busystop"] => (s, "-")         -- calls during a Stop in progress, on a system of its own: harness monitor only
-  | ["selfstop"] => (s, "-")         -- Stop called from an actor's OnKill handler: harness monitor only
+  | ["selfstop"] => (s, "-")
+  | ["zerostop"] => (s, "-")         -- Stop(0) / Stop(negative) with a busy actor: harness monitor only         -- Stop called from an actor's OnKill handler: harness monitor only
   | ["slowstop"] => (s, "-")         -- a Stop that times out, on a system of its own: harness monitor only
   | ["census"] => (s, "-")           -- goroutine census: harness monitor only
   | _ => (s, "bad-op")
